@@ -14,48 +14,75 @@ def evaluators(ix):
 
 
 def contributions(ix, b):
-    """[(sign, rows, colour_expr_set, block)] for each accumulator update `acc = acc.saturating_{add,sub}(count(kind) * value)`;
-    rows = [(variant, coeff, colour expr)].  Also returns the accumulator local and unrecognised updates."""
+    """[(sign, rows, block)] for each accumulator update `acc = acc.saturating_{add,sub}(count(kind) * value)`;
+    rows = [(variant, coeff, colour expr)].  Also returns the accumulator local, unrecognised updates and the initial values.
+
+    The accumulator is whatever is returned: one variable updated in two loops, or a chain of variables each started from
+    the finished previous one (`let own = ..sum..; let total = own - ..sum..`), which is what folds lower to."""
     sym = mir.Sym(b, ix)
-    # the accumulator: the local returned
-    ret_defs = b.defs().get(0, [])
-    acc = None
-    if len(ret_defs) == 1 and ret_defs[0][2].get("k") == "use":
-        p = op_place(ret_defs[0][2]["a"])
-        if p is not None and mir.is_local(p):
-            acc = p["l"]
-    contribs = []
-    unknown = []
-    init = []
-    if acc is None:
+    contribs, unknown, init = [], [], []
+    chain = []          # accumulator locals, the returned one first
+    todo = [0]
+    reads = []          # (accumulator read as a start value, block of the read)
+    firsts = []         # first operands of the updates: each must be an accumulator of the chain
+
+    def update(t, db):
+        sign = +1 if callee_is(t, "core::num::<impl i16>::saturating_add", "*::saturating_add", "*::wrapping_add", "*::checked_add") else \
+            -1 if callee_is(t, "core::num::<impl i16>::saturating_sub", "*::saturating_sub", "*::wrapping_sub") else None
+        if sign is None or len(t["args"]) != 2:
+            return False
+        rows = parse_term(sym.operand(t["args"][1]), sym)
+        if rows is None:
+            return False
+        firsts.append((mir.strip_copies(sym.operand(t["args"][0])), db))
+        contribs.append((sign, rows, db))
+        return True
+
+    while todo:
+        v = todo.pop()
+        if v in chain or len(chain) > 6:
+            continue
+        chain.append(v)
+        for (db, di, rv) in b.defs().get(v, []):
+            k = rv.get("k")
+            if k == "use" and const_int(rv["a"]) is not None:
+                init.append((const_int(rv["a"]), db))
+            elif k == "use":
+                p = op_place(rv["a"])
+                if p is None or not mir.is_local(p):
+                    unknown.append((expr_str(sym.rvalue(rv))[:120], db))
+                    continue
+                sd = b.single_def(p["l"])
+                if sd and sd[2].get("k") == "call" and p["l"] not in b.names:
+                    if not update(sd[2]["t"], db):
+                        unknown.append((expr_str(sym.rvalue(rv))[:120], db))
+                elif p["l"] > b.arg_count:
+                    reads.append((p["l"], db))      # starts from another accumulator
+                    todo.append(p["l"])
+                else:
+                    unknown.append((expr_str(sym.rvalue(rv))[:120], db))
+            elif k == "call":
+                if not update(rv["t"], db):
+                    unknown.append((expr_str(("call", strip_generics(mir.callee_name(rv["t"])), tuple(sym.operand(a) for a in rv["t"]["args"])))[:120], db))
+            elif k == "binop":
+                unknown.append((expr_str(sym.rvalue(rv))[:120], db))
+            else:
+                unknown.append((str(k), db))
+    names = {b.local_name(l) for l in chain}
+    for e, db in firsts:
+        if not (e[0] == "var" and e[1] in names):
+            unknown.append(("update of %s, which is not the accumulator" % expr_str(e)[:60], db))
+    # an accumulator read as a start value must be finished by then
+    for l, rb in reads:
+        later = [db for (db, di, rv) in b.defs().get(l, []) if db in b.reachable_from(rb)]
+        if later:
+            unknown.append(("%s is still updated after it was read as a start value" % b.local_name(l), rb))
+    if not contribs and not init:
         folded = fold_contributions(ix, b, sym)
         if folded is not None:
             return folded
         return None, contribs, [("return value is not a single accumulator variable", 0)], init
-    for (db, di, rv) in b.defs().get(acc, []):
-        if rv.get("k") == "use" and const_int(rv["a"]) is not None:
-            init.append((const_int(rv["a"]), db))
-            continue
-        if rv.get("k") == "use":
-            p = op_place(rv["a"])
-            sd = b.single_def(p["l"]) if p is not None and mir.is_local(p) else None
-            if sd and sd[2].get("k") == "call":
-                t = sd[2]["t"]
-                sign = +1 if callee_is(t, "core::num::<impl i16>::saturating_add", "*::saturating_add", "*::wrapping_add", "*::checked_add") else -1 if callee_is(t, "core::num::<impl i16>::saturating_sub", "*::saturating_sub", "*::wrapping_sub") else None
-                if sign is not None and len(t["args"]) == 2:
-                    a0 = sym.operand(t["args"][0])
-                    term = sym.operand(t["args"][1])
-                    if a0 == ("var", b.local_name(acc)):
-                        rows = parse_term(term, sym)
-                        if rows is not None:
-                            contribs.append((sign, rows, db))
-                            continue
-            unknown.append((expr_str(sym.rvalue(rv))[:120], db))
-            continue
-        if rv.get("k") == "binop":
-            unknown.append((expr_str(sym.rvalue(rv))[:120], db))
-            continue
-        unknown.append((str(rv.get("k")), db))
+    acc = chain[1] if len(chain) > 1 else chain[0]
     return acc, contribs, unknown, init
 
 
